@@ -29,8 +29,10 @@ VARIABLES l,        \* next line to consume
           maxlim,   \* largest DataFileSize used so far in this trace
           mg,       \* the last successful Merge awaiting adoption: [on, nm (first file id that did not take part), snap]
           lastact,  \* id of the active file in the last dump
+          hist,     \* [key -> set of values ever written to it] (C12: what a damaged database may still serve)
+          orig,     \* C12: the records each file held before it was damaged: sequence of [name, recs]
           nops      \* ops since reset (diagnostics)
-vars == <<l, n, st, model, batch, rec, maxlim, mg, lastact, nops>>
+vars == <<l, n, st, model, batch, rec, maxlim, mg, lastact, hist, orig, nops>>
 
 E == Trace[l]
 Is(ev) == l <= Len(Trace) /\ Trace[l].ev = ev
@@ -45,12 +47,12 @@ Fail(what) == Print(<<"CHECK-FAILED", "line", l, what>>, FALSE)
 Must(name, cond) == IF Chk(name) /\ ~cond THEN Fail(name) ELSE TRUE
 
 Init == /\ l = 1 /\ n = 0 /\ st = "closed" /\ model = <<>> /\ batch = NoBatch
-        /\ rec = RecInit({}) /\ maxlim = 0 /\ mg = NoMg /\ lastact = 0 /\ nops = 0
+        /\ rec = RecInit({}) /\ maxlim = 0 /\ mg = NoMg /\ lastact = 0 /\ hist = <<>> /\ orig = <<>> /\ nops = 0
 
 TReset == /\ Is("reset")
           /\ l' = l + 1 /\ n' = E.n /\ st' = "closed"
           /\ model' = [k \in 1..E.n |-> Nil] /\ batch' = NoBatch
-          /\ rec' = RecInit(1..E.n) /\ maxlim' = 0 /\ mg' = NoMg /\ lastact' = 0 /\ nops' = 0
+          /\ rec' = RecInit(1..E.n) /\ maxlim' = 0 /\ mg' = NoMg /\ lastact' = 0 /\ hist' = [k \in 1..E.n |-> {}] /\ orig' = <<>> /\ nops' = 0
 
 (* ---- expected outcome of each call ------------------------------------ *)
 \* <<expected error name, expected result, model', batch'>>
@@ -102,8 +104,9 @@ TOp == /\ Is("op")
              \* A failed Merge leaves nothing that the checks below may rely on.
              /\ mg' = IF e.op = "Merge" THEN (IF e.err = "ok" THEN [on |-> TRUE, nm |-> lastact + 1, snap |-> model] ELSE NoMg)
                       ELSE mg
+             /\ hist' = IF e.op \in {"Put", "BPut"} /\ e.k \in K THEN [hist EXCEPT ![e.k] = @ \cup {e.v}] ELSE hist
        /\ l' = l + 1 /\ nops' = nops + 1
-       /\ UNCHANGED <<n, rec, lastact>>
+       /\ UNCHANGED <<n, rec, lastact, orig>>
 
 (* ---- observations ------------------------------------------------------ *)
 RECURSIVE AscFrom(_, _)
@@ -159,7 +162,7 @@ TDump ==
                        THEN e.files[CHOOSE i \in 1..Len(e.files) : e.files[i].active = 1].id
                        ELSE lastact
   /\ l' = l + 1
-  /\ UNCHANGED <<n, st, model, batch, maxlim, nops>>
+  /\ UNCHANGED <<n, st, model, batch, maxlim, hist, orig, nops>>
 
 \* C20: the backup directory, opened as an independent database while the source is still open,
 \* holds exactly the mapping the source had when Backup was called (no mutation lies between
@@ -168,7 +171,7 @@ TBDump == /\ Is("bdump") /\ st = "open"
           /\ Must("backup", /\ E.open = "ok" /\ E.geterr = "ok" /\ E.close = "ok" /\ ~E.lockcopied
                             /\ \A k \in K : E.vals[k] = model[k]
                             /\ E.keys = LiveSeq /\ E.statkeys = Cardinality(Live(model)))
-          /\ l' = l + 1 /\ UNCHANGED <<n, st, model, batch, rec, maxlim, mg, lastact, nops>>
+          /\ l' = l + 1 /\ UNCHANGED <<n, st, model, batch, rec, maxlim, mg, lastact, hist, orig, nops>>
 
 \* C18: right after a successful Merge the hint file and the rewritten data files, decoded with the
 \* package's own readers: the hinted (key, position, size) triples are exactly those of the rewritten
@@ -184,7 +187,7 @@ THint == /\ Is("hint") /\ st = "open"
                                                           /\ e.recs[i].v = model[e.recs[i].k]
                             /\ {e.recs[i].k : i \in 1..Len(e.recs)} = Live(model)
                             /\ Len(e.recs) = Cardinality(Live(model)))
-         /\ l' = l + 1 /\ UNCHANGED <<n, st, model, batch, rec, maxlim, mg, lastact, nops>>
+         /\ l' = l + 1 /\ UNCHANGED <<n, st, model, batch, rec, maxlim, mg, lastact, hist, orig, nops>>
 
 \* C18: a copy of both directories opened through the hint (the adopting Open) and then once more by a
 \* plain scan of the same files: same values, same positions, same sizes - and both equal to the model
@@ -193,14 +196,49 @@ THintCmp == /\ Is("hintcmp") /\ st = "open"
                Must("hintcmp", /\ e.opena = "ok" /\ e.openb = "ok" /\ e.closea = "ok"
                                /\ e.vala = e.valb /\ e.idxa = e.idxb
                                /\ \A k \in K : e.vala[k] = model[k])
-            /\ l' = l + 1 /\ UNCHANGED <<n, st, model, batch, rec, maxlim, mg, lastact, nops>>
+            /\ l' = l + 1 /\ UNCHANGED <<n, st, model, batch, rec, maxlim, mg, lastact, hist, orig, nops>>
+
+(* ---- C12: damaged files ---------------------------------------------------- *)
+\* the records every file holds before any damage, scanned with the package's reader from the closed database
+TDBase == /\ Is("dbase") /\ st = "closed"
+          /\ orig' = E.files
+          /\ l' = l + 1 /\ UNCHANGED <<n, st, model, batch, rec, maxlim, mg, lastact, hist, nops>>
+
+Ident(r) == <<r.k, r.v, r.t>>
+OrigOf(name) == LET S == {i \in 1..Len(orig) : orig[i].name = name} IN
+                IF S = {} THEN {} ELSE LET f == orig[CHOOSE i \in S : TRUE] IN {Ident(f.recs[i]) : i \in 1..Len(f.recs)}
+\* One copy of the closed database had one file damaged (kind "flip": one bit; "bytes": several bytes overwritten;
+\* "trunc": file cut; "garbage": a block replaced), was opened, and every read path was used. Allowed:
+\*   - Open, Get, Fold, the sequential reader return an error (never a panic, never a hang);
+\*   - a value that is returned is the one originally written for that key (for cuts and overwrites, which can
+\*     remove whole records undetectably: a value once written to that key, or not-found);
+\*   - nothing the sequential reader delivers differs from a record that file held.
+TDamage ==
+  /\ Is("damage") /\ st = "closed"
+  /\ LET e == E
+         strict == e.kind = "flip"
+         okErr(x) == x \notin {"panic", "stuck"}
+         valOK(k) == \/ e.vals[k] = model[k]
+                     \/ (e.vals[k] = -2 /\ okErr(e.geterrs[k]))                        \* an error other than not-found
+                     \/ (~strict /\ (e.vals[k] = Nil \/ e.vals[k] \in hist[k]))
+     IN Must("damage",
+          /\ okErr(e.open)
+          /\ (e.open = "ok" =>
+                /\ \A k \in K : valOK(k)
+                /\ okErr(e.folderr)
+                /\ \A i \in 1..Len(e.fk) : /\ e.fk[i] \in K
+                                            /\ (e.fv[i] = model[e.fk[i]] \/ (~strict /\ e.fv[i] \in hist[e.fk[i]]))
+                /\ ((strict /\ e.folderr = "ok") => e.fk = LiveSeq))
+          /\ okErr(e.scanerr)
+          /\ \A i \in 1..Len(e.scan) : Ident(e.scan[i]) \in OrigOf(e.file))
+  /\ l' = l + 1 /\ UNCHANGED <<n, st, model, batch, rec, maxlim, mg, lastact, hist, orig, nops>>
 
 \* driver-side facts that must simply be true (canaries of C15, digests of C14)
 TNote == /\ Is("note")
          /\ Must(E.check, E.ok)
-         /\ l' = l + 1 /\ UNCHANGED <<n, st, model, batch, rec, maxlim, mg, lastact, nops>>
+         /\ l' = l + 1 /\ UNCHANGED <<n, st, model, batch, rec, maxlim, mg, lastact, hist, orig, nops>>
 
-Next == TReset \/ TOp \/ TDump \/ TBDump \/ THint \/ THintCmp \/ TNote
+Next == TReset \/ TOp \/ TDump \/ TBDump \/ THint \/ THintCmp \/ TDBase \/ TDamage \/ TNote
 Spec == Init /\ [][Next]_vars
 
 (* ---- acceptance: the whole file was consumed --------------------------- *)
